@@ -20,6 +20,10 @@ Pick(S) == IF Mode = "sim" THEN {RandomElement(S)} ELSE S
 MassLaw(re, k) == [type |-> "massaction", re |-> SortNat(re), k |-> k, K |-> One, n |-> One, s1 |-> 1, d |-> 1]
 HillLawsG == {[type |-> ty, re |-> << >>, k |-> k, K |-> KK, n |-> nn, s1 |-> s, d |-> dd] :
                 ty \in HillTypes, k \in KG, KK \in {I(1), I(2)}, nn \in {I(1), I(2)}, s \in Sp, dd \in Sp}
+\* general propensities with an affine rate  K + k*x[s1] - n*x[d]  (negative where the backward flux dominates);
+\* as many of them as Hill laws so that the random choice meets them often
+AffineLawsG == {[type |-> "affine", re |-> << >>, k |-> k, K |-> KK, n |-> nn, s1 |-> s, d |-> dd] :
+                  k \in KG, KK \in {Zero, I(1)}, nn \in {I(1), I(3), R(5, 2), I(4)}, s \in Sp, dd \in Sp}
 NoDelay == [type |-> "none", p1 |-> Zero, p2 |-> Zero]
 DelaysG == {NoDelay, [type |-> "fixed", p1 |-> R(3, 2), p2 |-> Zero],
             [type |-> "gaussian", p1 |-> I(2), p2 |-> R(1, 2)], [type |-> "gamma", p1 |-> I(2), p2 |-> R(1, 2)]}
@@ -38,7 +42,7 @@ Declare == /\ pc = "declare"
 AddRx == /\ pc = "build" /\ Len(prog.rx) < MaxRx
          /\ \E re \in Pick(SeqsUpTo(MaxSide)), pr \in Pick(SeqsUpTo(MaxSide)),
               dre \in Pick(SeqsUpTo(MaxDSide)), dpr \in Pick(SeqsUpTo(MaxDSide)) :
-            \E law \in (IF Mode = "sim" THEN Pick({MassLaw(re, k) : k \in KG} \cup HillLawsG) ELSE {MassLaw(re, I(2))}),
+            \E law \in (IF Mode = "sim" THEN Pick({MassLaw(re, k) : k \in KG} \cup HillLawsG \cup AffineLawsG) ELSE {MassLaw(re, I(2))}),
               dl \in (IF Mode = "sim" THEN Pick(DelaysG)
                       ELSE IF dre = << >> /\ dpr = << >> THEN {NoDelay} ELSE {[type |-> "fixed", p1 |-> R(3, 2), p2 |-> Zero]}),
               nm \in (IF Mode = "sim" THEN Pick(BOOLEAN) ELSE {Len(re) % 2 = 0}) :
